@@ -255,4 +255,317 @@ theorem splitFacts {c S rest : Str} (h : Cleaned c S rest) {r : SplitResult}
           simp only [splitFirst_cons_s20, if_true, splitFirst_nil_s20]
     · intro x hx; exact hd (hs1 (splitFirst_snd_subset _ _ hx))
 
+/-! ## what the accessors return -/
+
+theorem splitLast_spec (s : Str) (sep : Char) :
+    (∀ a, (splitLast s sep).1 = some a → s = a ++ sep :: (splitLast s sep).2) ∧
+    ((splitLast s sep).1 = none → (splitLast s sep).2 = s) := by
+  unfold splitLast
+  rw [span_eq_s20]
+  have hcat := List.takeWhile_append_dropWhile (p := fun c => decide (c ≠ sep)) (l := s.reverse)
+  have hhead := List.head?_dropWhile_not (fun c => decide (c ≠ sep)) s.reverse
+  cases hd : s.reverse.dropWhile (fun c => decide (c ≠ sep)) with
+  | nil =>
+    rw [hd, List.append_nil] at hcat
+    simp only [reduceCtorEq, false_implies, implies_true, true_and, hcat, List.reverse_reverse]
+  | cons x a =>
+    rw [hd] at hcat hhead
+    simp only [List.head?_cons, ne_eq, decide_not, Bool.not_eq_false', decide_eq_true_eq] at hhead
+    subst hhead
+    simp only [Option.some.injEq, reduceCtorEq, false_implies, and_true]
+    intro a' ha'
+    subst ha'
+    have := congrArg List.reverse hcat
+    simp only [List.reverse_append, List.reverse_cons, List.reverse_reverse,
+      List.append_assoc, List.singleton_append] at this
+    exact this.symm
+
+/-- a character that is not a lower-case ASCII letter is only the image of itself -/
+theorem lowerChar_eq_of_not_lower {d c : Char} (h : lowerChar d = c)
+    (hc : ¬ (97 ≤ c.toNat ∧ c.toNat ≤ 122)) : d = c := by
+  have ht := lowerChar_toNat d
+  rw [h] at ht
+  split at ht
+  · omega
+  · rw [← h]; unfold lowerChar
+    rename_i hn
+    have : ¬ ('A' ≤ d ∧ d ≤ 'Z') := by
+      simp only [char_le_iff]
+      have e1 : 'A'.toNat = 65 := rfl
+      have e2 : 'Z'.toNat = 90 := rfl
+      rw [e1, e2]; exact hn
+    rw [if_neg this]
+
+/-- `h` is made of characters of `nl`, possibly lower-cased -/
+def LowerOf (h nl : Str) : Prop := ∀ ch ∈ h, ∃ d ∈ nl, ch = d ∨ ch = lowerChar d
+
+theorem LowerOf.not_mem {h nl : Str} (hl : LowerOf h nl) {c : Char} (hc : c ∉ nl)
+    (hnl : ¬ (97 ≤ c.toNat ∧ c.toNat ≤ 122)) : c ∉ h := by
+  intro hm
+  obtain ⟨d, hd, rfl | e⟩ := hl c hm
+  · exact hc hd
+  · have := lowerChar_eq_of_not_lower e.symm hnl
+    subst this; exact hc hd
+
+theorem LowerOf.noCtl {h nl : Str} (hl : LowerOf h nl) (hn : NoCtl nl) : NoCtl h := by
+  intro c hc
+  obtain ⟨d, hd, rfl | rfl⟩ := hl c hc
+  · exact hn _ hd
+  · rw [isControlChar_lowerChar]; exact hn _ hd
+
+theorem lowerOf_lower (s nl : Str) (h : s ⊆ nl) : LowerOf (lower s) nl := by
+  intro c hc
+  simp only [Py.lower, List.mem_map] at hc
+  obtain ⟨d, hd, rfl⟩ := hc
+  exact ⟨d, h hd, Or.inr rfl⟩
+
+theorem lowerOf_lowerHost (h0 nl : Str) (h : h0 ⊆ nl) : LowerOf (lowerHost h0) nl := by
+  intro c hc
+  unfold lowerHost at hc
+  have hspec := splitFirst_spec_s20 h0 '%'
+  rcases List.mem_append.1 hc with h1 | h1
+  · exact lowerOf_lower _ nl (fun x hx => h (splitFirst_fst_subset h0 '%' hx)) c h1
+  · cases hz : (splitFirst h0 '%').2 with
+    | none => rw [hz] at h1; simp at h1
+    | some z =>
+      rw [hz] at h1 hspec
+      refine ⟨c, h ?_, Or.inl rfl⟩
+      rw [hspec.2]
+      simp only [List.mem_cons] at h1
+      rcases h1 with rfl | h1
+      · exact List.mem_append_right _ (List.mem_cons_self)
+      · exact List.mem_append_right _ (List.mem_cons_of_mem _ h1)
+
+structure NetlocFacts (nl : Str) : Prop where
+  user_sub : ∀ u, username nl = some u → u ⊆ nl ∧ ':' ∉ u
+  pass_sub : ∀ pw, password nl = some pw → pw ⊆ nl
+  host_lower : ∀ h, hostname nl = some h → LowerOf h nl ∧ '@' ∉ h ∧ h ≠ []
+  port_le : ∀ n, Py.port nl = some (some n) → n ≤ 65535
+
+theorem hostPortStr_fst_subset (hi : Str) : (hostPortStr hi).1 ⊆ hi := by
+  unfold hostPortStr
+  have hspec := splitFirst_spec_s20 hi '['
+  cases hb : (splitFirst hi '[').2 with
+  | some b =>
+    rw [hb] at hspec
+    simp only
+    intro x hx
+    have := splitFirst_fst_subset b ']' hx
+    rw [hspec.2]; simp [this]
+  | none => exact splitFirst_fst_subset hi ':'
+
+theorem netlocFacts (nl : Str) : NetlocFacts nl := by
+  have hsl := splitLast_spec nl '@'
+  refine ⟨?_, ?_, ?_, ?_⟩
+  · intro u hu
+    unfold username userinfo at hu
+    cases hui : (splitLast nl '@').1 with
+    | none => rw [hui] at hu; cases hu
+    | some ui =>
+      rw [hui] at hu
+      simp only [Option.some.injEq] at hu
+      subst hu
+      have hsub : ui ⊆ nl := by
+        intro x hx; rw [hsl.1 ui hui]; simp [hx]
+      exact ⟨fun x hx => hsub (splitFirst_fst_subset ui ':' hx), (splitFirst_spec_s20 ui ':').1⟩
+  · intro pw hpw
+    unfold password userinfo at hpw
+    cases hui : (splitLast nl '@').1 with
+    | none => rw [hui] at hpw; cases hpw
+    | some ui =>
+      rw [hui] at hpw
+      simp only at hpw
+      have hsub : ui ⊆ nl := by
+        intro x hx; rw [hsl.1 ui hui]; simp [hx]
+      have := splitFirst_snd_subset ui ':'
+      rw [hpw] at this
+      exact fun x hx => hsub (this hx)
+  · intro h hh
+    unfold hostname hostinfo at hh
+    simp only at hh
+    split at hh
+    · cases hh
+    · rename_i hne
+      simp only [Option.some.injEq] at hh
+      have hsub0 : hostinfoStr nl ⊆ nl := by
+        unfold hostinfoStr
+        cases hui : (splitLast nl '@').1 with
+        | none => rw [hsl.2 hui]; exact fun x hx => hx
+        | some ui => intro x hx; rw [hsl.1 ui hui]; simp [hx]
+      have hsub : (hostPortStr (hostinfoStr nl)).1 ⊆ nl :=
+        fun x hx => hsub0 (hostPortStr_fst_subset _ hx)
+      have hl := lowerOf_lowerHost _ nl hsub
+      rw [hh] at hl
+      have hat : '@' ∉ (hostPortStr (hostinfoStr nl)).1 := by
+        intro hm
+        have := hostPortStr_fst_subset _ hm
+        exact splitLast_snd_not_mem nl '@' this
+      refine ⟨hl, ?_, ?_⟩
+      · intro hm
+        obtain ⟨d, hd, rfl | e⟩ := lowerOf_lowerHost _ _ (fun x hx => hx) '@' (hh ▸ hm)
+        · exact hat hd
+        · have := lowerChar_eq_of_not_lower e.symm (by decide)
+          subst this; exact hat hd
+      · intro he
+        subst he
+        unfold lowerHost at hh
+        have h1 : lower (splitFirst (hostPortStr (hostinfoStr nl)).1 '%').1 = [] := by
+          exact (List.append_eq_nil_iff.1 hh).1
+        have h2 := (List.append_eq_nil_iff.1 hh).2
+        have hspec := splitFirst_spec_s20 (hostPortStr (hostinfoStr nl)).1 '%'
+        cases hz : (splitFirst (hostPortStr (hostinfoStr nl)).1 '%').2 with
+        | some z => rw [hz] at h2; simp at h2
+        | none =>
+          rw [hz] at hspec
+          have : (splitFirst (hostPortStr (hostinfoStr nl)).1 '%').1 = [] := by
+            simpa [Py.lower] using h1
+          apply hne
+          rw [hspec.2, this]
+  · intro n hn
+    unfold Py.port at hn
+    split at hn
+    · cases hn
+    · split at hn
+      · split at hn
+        · simp only [Option.some.injEq] at hn; subst hn; assumption
+        · cases hn
+      · cases hn
+
+/-! ## the characters the unquoters and the quoter can produce -/
+
+theorem mem_safelyUnquote_cases (U : List UInt8) {c : Char} {s : Str}
+    (h : c ∈ safelyUnquote U s) :
+    c ∈ s ∨ c = '%' ∨ isHexDigit c = true ∨
+      (∃ b : UInt8, c = Char.ofNat b.toNat ∧ b.toNat < 0x80 ∧ keepEsc U b = false ∧ b ≠ 0x20) ∨
+      0xa0 ≤ c.toNat := by
+  simp only [safelyUnquote, render, List.mem_flatMap] at h
+  obtain ⟨t, ht, hch⟩ := h
+  have := outTok_unquoteToks U (tokens s) (wf_tokens s) t ht
+  cases this with
+  | input c' hc' _ =>
+    simp only [renderTok, List.mem_singleton] at hch
+    subst hch
+    left
+    rw [← render_tokens s]
+    simp only [render, List.mem_flatMap]
+    exact ⟨_, hc', by simp [renderTok]⟩
+  | esc h1 h2 a b =>
+    simp only [renderTok, List.mem_cons, List.not_mem_nil, or_false] at hch
+    rcases hch with h | h | h
+    · exact Or.inr (Or.inl h)
+    · subst h; exact Or.inr (Or.inr (Or.inl a))
+    · subst h; exact Or.inr (Or.inr (Or.inl b))
+  | ascii b hlt' hk h20 =>
+    simp only [renderTok, List.mem_singleton] at hch
+    exact Or.inr (Or.inr (Or.inr (Or.inl ⟨b, hch, hlt', hk, h20⟩)))
+  | high c' hc' =>
+    simp only [renderTok, List.mem_singleton] at hch
+    subst hch
+    exact Or.inr (Or.inr (Or.inr (Or.inr hc')))
+
+theorem isHexDigit_toNat {c : Char} (h : isHexDigit c = true) :
+    (48 ≤ c.toNat ∧ c.toNat ≤ 57) ∨ (97 ≤ c.toNat ∧ c.toNat ≤ 102) ∨ (65 ≤ c.toNat ∧ c.toNat ≤ 70) := by
+  simp only [isHexDigit, isAsciiDigit, Bool.or_eq_true, decide_eq_true_eq, char_le_iff] at h
+  have e1 : 'a'.toNat = 97 := rfl
+  have e2 : 'f'.toNat = 102 := rfl
+  have e3 : 'A'.toNat = 65 := rfl
+  have e4 : 'F'.toNat = 70 := rfl
+  have e5 : '0'.toNat = 48 := rfl
+  have e6 : '9'.toNat = 57 := rfl
+  rw [e1, e2, e3, e4, e5, e6] at h
+  omega
+
+theorem not_ctl_of_range {c : Char} (h : 0x20 ≤ c.toNat ∧ c.toNat < 0x7f ∨ 0xa0 ≤ c.toNat) :
+    isControlChar c = false := by
+  cases hc : isControlChar c with
+  | false => rfl
+  | true => rw [isControlChar_iff] at hc; omega
+
+theorem noCtl_safelyUnquote (U : List UInt8) {s : Str} (h : NoCtl s) :
+    NoCtl (safelyUnquote U s) := by
+  intro c hc
+  rcases mem_safelyUnquote_cases U hc with h1 | rfl | h1 | ⟨b, rfl, hlt, hk, _⟩ | h1
+  · exact h c h1
+  · decide
+  · apply not_ctl_of_range; have := isHexDigit_toNat h1; omega
+  · apply not_ctl_of_range
+    rw [toNat_ofNat_of_lt (by omega)]
+    simp only [keepEsc, Bool.or_eq_false_iff, decide_eq_false_iff_not, beq_eq_false_iff_ne] at hk
+    have h1 : ¬ b.toNat < 0x20 := fun hh => hk.1.1 (UInt8.lt_iff_toNat_lt.2 (by simpa using hh))
+    have h2 : b.toNat ≠ 0x7f := fun hh => hk.1.2 (UInt8.toNat_inj.1 (by simpa using hh))
+    omega
+  · exact not_ctl_of_range (Or.inr h1)
+
+theorem quoteSafe_toNat {c : Char} (h : quoteSafe c = true) : 0x20 ≤ c.toNat ∧ c.toNat < 0x7f := by
+  simp only [quoteSafe, isAsciiAlpha, isAsciiDigit, Bool.or_eq_true, decide_eq_true_eq,
+    char_le_iff] at h
+  have e1 : 'a'.toNat = 97 := rfl
+  have e2 : 'z'.toNat = 122 := rfl
+  have e3 : 'A'.toNat = 65 := rfl
+  have e4 : 'Z'.toNat = 90 := rfl
+  have e5 : '0'.toNat = 48 := rfl
+  have e6 : '9'.toNat = 57 := rfl
+  rw [e1, e2, e3, e4, e5, e6] at h
+  rcases h with (((((h | h) | h) | h) | h) | h) | h
+  · omega
+  · omega
+  · subst h; decide
+  · subst h; decide
+  · subst h; decide
+  · subst h; decide
+  · subst h; decide
+
+theorem mem_safelyQuote_cases {c : Char} {s : Str} (h : c ∈ safelyQuote s) :
+    quoteSafe c = true ∨ c = '%' ∨ isHexDigit c = true := by
+  simp only [safelyQuote, render, quoteToks, List.mem_flatMap] at h
+  obtain ⟨t', ⟨t, ht, ht'⟩, hch⟩ := h
+  have hw := wf_tokens s t ht
+  cases t with
+  | raw c0 =>
+    simp only [quoteTok] at ht'
+    split at ht'
+    · rename_i hs
+      simp only [List.mem_singleton] at ht'
+      subst ht'
+      simp only [renderTok, List.mem_singleton] at hch
+      subst hch; exact Or.inl hs
+    · simp only [List.mem_map] at ht'
+      obtain ⟨b, _, rfl⟩ := ht'
+      have hcan := canon_escOfByte b
+      simp only [escOfByte, renderTok, List.mem_cons, List.not_mem_nil, or_false] at hch
+      rcases hch with e | e | e
+      · exact Or.inr (Or.inl e)
+      · subst e; exact Or.inr (Or.inr hcan.1)
+      · subst e; exact Or.inr (Or.inr hcan.2)
+  | esc h1 h2 =>
+    simp only [quoteTok, List.mem_singleton] at ht'
+    subst ht'
+    simp only [renderTok, List.mem_cons, List.not_mem_nil, or_false] at hch
+    rcases hch with e | e | e
+    · exact Or.inr (Or.inl e)
+    · subst e; exact Or.inr (Or.inr hw.1)
+    · subst e; exact Or.inr (Or.inr hw.2)
+  | stray =>
+    simp only [quoteTok, List.mem_singleton] at ht'
+    subst ht'
+    simp only [renderTok, List.mem_cons, List.not_mem_nil, or_false] at hch
+    rcases hch with e | e | e
+    · exact Or.inr (Or.inl e)
+    · subst e; exact Or.inr (Or.inr (by decide))
+    · subst e; exact Or.inr (Or.inr (by decide))
+
+theorem noCtl_safelyQuote (s : Str) : NoCtl (safelyQuote s) := by
+  intro c hc
+  rcases mem_safelyQuote_cases hc with h1 | rfl | h1
+  · apply not_ctl_of_range; have := quoteSafe_toNat h1; omega
+  · decide
+  · apply not_ctl_of_range; have := isHexDigit_toNat h1; omega
+
+theorem noCtl_requote (quoted : Bool) (U : List UInt8) {s : Str} (h : NoCtl s) :
+    NoCtl (requote quoted (safelyUnquote U) s) := by
+  unfold requote
+  split
+  · exact noCtl_safelyQuote _
+  · exact noCtl_safelyUnquote U h
+
 end Ural.CanonRoundTrip
